@@ -100,7 +100,11 @@ def check(run):
                 run.fail('a line that is not the first of its page ends below the page bottom',
                          {'stream': 'frag2-render', 'html': d['html'], 'pages': d['pages'], 'H': d['H']})
                 break
-        # progress on the model grammar: no page without lines unless it is a blank page of the model
+        # progress on the model grammar: a page without lines is a blank page required by a side break
+        for d, m in res:
+            for clause, detail in fragcheck.judge_blank_pages(d)[:1]:
+                run.fail('%s %s' % (clause, detail), {'stream': 'frag2-render', 'html': d['html'], 'pages': d['pages'],
+                                                      'H': d['H'], 'clause': clause}, signature='progress:%s' % clause)
         run.count('frag2-render', len(res), [fragcheck.doc_key(d) for d, _ in res if len(d['pages']) > 1],
                   samples=[res[0][0]['html'][-400:]] if res else [])
         run.stream_info('frag2-render', rule='fraggen.py incl. pages shorter than one line; judged in Coq: model = implementation, '
